@@ -493,3 +493,15 @@ Proof.
   - f_equal. norm_pows. abstract_be Hb. wconsts.
     rewrite !Z.div_1_r, !Z.mod_small by lia. reflexivity.
 Qed.
+
+(* ---------- per-header summaries used by Properties/C15.v ---------- *)
+Definition ipv4_codec := conj ipv4_roundtrip (conj ipv4_rfc_layout ipv4_encode_rfc).
+Definition ipv6_codec := conj ipv6_roundtrip (conj ipv6_rfc_layout ipv6_encode_rfc).
+Definition ipv6frag_codec := conj ipv6frag_roundtrip (conj ipv6frag_rfc_layout ipv6frag_encode_rfc).
+Definition tcp_codec := conj tcp_roundtrip (conj tcp_rfc_layout tcp_encode_rfc).
+Definition udp_codec := conj udp_roundtrip (conj udp_rfc_layout udp_encode_rfc).
+Definition icmp_codec := conj icmp_roundtrip (conj icmp_rfc_layout icmp_encode_rfc).
+Definition eth_codec := conj eth_roundtrip (conj eth_rfc_layout eth_encode_rfc).
+Definition arp_codec := conj arp_roundtrip arp_rfc_layout.
+Definition field_domains_tight_refuted :=
+  conj ipv4_outside_refuted (conj ipv6frag_outside_refuted tcp_outside_refuted).
